@@ -127,6 +127,12 @@ def writer_schema(P):
         if nm == "ffcrim":      # fits_create_img(fits, bitpix, naxis, naxes, status)
             cur_hdu = dict(kind="image", bitpix=f.nodes[f.strip(a[1])].get("cv"), naxis=f.render(a[2]).replace("this->", ""), node=i, name=None, pix=None)
             items.append(cur_hdu)
+        elif nm == "ffmahd":    # fits_movabs_hdu(fits, hdunum, exttype, status): data may be written after going back to an HDU created earlier
+            k = f.nodes[f.strip(a[1])].get("cv")
+            hd = [x for x in items if x["kind"] == "image"]
+            if k is None or not (1 <= k <= len(hd)):
+                raise core.AnalysisBroken("writer schema: fits_movabs_hdu to an HDU that cannot be resolved (%s)" % f.render(a[1]))
+            cur_hdu = hd[k - 1]
         elif nm == "ffppx":     # fits_write_pix(fits, datatype, firstpix, nelem, array, status)
             cur_hdu["pix"] = dict(code=f.nodes[f.strip(a[1])].get("cv"), elem=elem_type(f, a[4]), buf=f.render(a[4]).replace("this->", ""), node=i)
         elif nm in ("ffpky", "ffuky"):   # fits_write_key / fits_update_key (fits, datatype, keyname, value, comm, status)
@@ -319,8 +325,14 @@ def fs7(P, C):
         a = wf.args(i)
         if nm == "ffcrim":
             imgs.append(dict(axes=a[3], naxis=norm(wf, a[2]), pix=None, node=i))
+            cur = imgs[-1]
+        elif nm == "ffmahd":
+            k = wf.nodes[wf.strip(a[1])].get("cv")
+            if k is None or not (1 <= k <= len(imgs)):
+                raise core.AnalysisBroken("FS-7: fits_movabs_hdu to an HDU that cannot be resolved (%s)" % wf.render(a[1]))
+            cur = imgs[k - 1]
         elif nm == "ffppx":
-            imgs[-1]["pix"] = (a[3], norm(wf, a[4]), i)
+            cur["pix"] = (a[3], norm(wf, a[4]), i)
     if len(imgs) != 3 or any(im["pix"] is None for im in imgs):
         raise core.AnalysisBroken("FS-7: writer images %d" % len(imgs))
 
@@ -564,3 +576,150 @@ def fs9(P, C):
              "earlier key only in what cfitsio ignores, replaces that card and the earlier entry is lost on serialisation" % (m, f.render(name_arg)[:40]))
     if n == 0:
         raise core.AnalysisBroken("FS-9: write_fits_core writes no keyword")
+
+
+# --------------------------------------------------------------------------
+# FS-10: the reader defines every entry of a per-dimension array before it reads one
+# --------------------------------------------------------------------------
+def fs10(P, C, members=("order",)):
+    """must-defined dataflow over read_fits_core for raw arrays obtained from allocate<T>(ndim) (uninitialised storage)"""
+    from . import uw
+    C.rule("FS-10", "read_fits_core never reads an entry of the orders array that no statement has written: storage comes uninitialised from "
+           "allocate<>(ndim); entry 0 is defined by the legacy single-ORDER read (destination &order[0]) and the rest by std::fill from it, or "
+           "every entry by the per-dimension ORDERn loop over [0, ndim). A read on a path where the entry is not yet defined hands heap "
+           "garbage to the validations and to the table (legacy files with one ORDER key decode to nonsense)", floor=2)
+    rf = [g for g in P.fns("read_fits_core") if g.unit == "driver"][0]
+    f = rf
+    n_obl = 0
+    for mem in members:
+        def rooted(i):
+            r = ts.root_member(f, i)
+            return r is not None and r[0] == mem and r[2] == "this"
+
+        def elem_index(i):
+            """i is `mem[e]` (ArraySubscriptExpr on the member): return e else None"""
+            j = f.strip(i)
+            if f.k(j) == "ArraySubscriptExpr":
+                b = f.strip(f.nodes[j]["ch"][0])
+                if f.k(b) == "MemberExpr" and f.nodes[b].get("member") == mem and rooted(b):
+                    return f.nodes[j]["ch"][1]
+            return None
+        # canonical loops over [0, ndim) whose body writes mem[loopvar] unconditionally
+        loops = {}
+        writes = {}      # node of the writing statement/call -> index expression | ("bulk", rendered destination)
+        dest = {}        # ... -> the destination operand (its sub-expressions are not reads)
+        reads = []
+        for i, cal in f.calls():
+            if not cal:
+                continue
+            args = f.args(i)
+            if cal.get("externC") and cal["name"].startswith("ff"):
+                for a in args:
+                    s_ = f.strip(a)
+                    if f.k(s_) == "UnaryOperator" and f.nodes[s_]["op"] == "&":
+                        e = elem_index(f.nodes[s_]["ch"][0])
+                        if e is not None:
+                            writes[i] = e
+                            dest[i] = a
+            elif cal["name"] in ("fill", "fill_n", "copy", "copy_n") and cal.get("qname", "").startswith("std::"):
+                dst = args[0] if cal["name"].startswith("fill") else args[2]
+                if rooted(dst):
+                    r = ts.root_member(f, dst)
+                    if r[1] == 0:
+                        off = f.render(dst).replace("this->", "").replace(" ", "")
+                        writes[i] = ("bulk", off)
+                        dest[i] = dst
+        for i in f.walk():
+            ap = ts.assign_parts(f, i)
+            if ap and ap[1] is not None:
+                e = elem_index(ap[0])
+                if e is not None:
+                    writes[i] = e
+                    dest[i] = ap[0]
+        write_sub = set()
+        for w in writes:
+            for x in f.walk(dest[w]):
+                write_sub.add(x)
+        pos = f.node_positions()
+        facts_at = {}
+
+        def index_kind(e):
+            s_ = f.strip(e)
+            if f.nodes[s_].get("cv") == 0:
+                return ("zero", None)
+            if f.k(s_) == "DeclRefExpr":
+                for a in f.ancestors(s_):
+                    if f.k(a) == "ForStmt":
+                        cl = uw.canonical_loop(f, a)
+                        if cl and cl[0] == f.nodes[s_]["decl"]["id"] and cl[1] in ("ndim",):
+                            return ("loop", a)
+                        break
+            return ("other", None)
+        loop_writes = {}
+        for w, e in writes.items():
+            if isinstance(e, tuple):
+                continue
+            kind, L = index_kind(e)
+            if kind == "loop":
+                # unconditional in the body
+                cond = False
+                for a in f.ancestors(w):
+                    if a == L:
+                        break
+                    if f.k(a) in ("IfStmt", "ConditionalOperator", "SwitchStmt", "ForStmt", "WhileStmt", "DoStmt"):
+                        cond = True
+                if not cond:
+                    loop_writes[f.strip(f.nodes[L]["cond"])] = L
+
+        def transfer(st, el, b, j):
+            if el.get("kind") != "stmt":
+                return st
+            i = el["n"]
+            if i in writes:
+                e = writes[i]
+                if isinstance(e, tuple):
+                    if e[1] == mem:
+                        return st | {"zero", "all"}
+                    if e[1] in ("(%s+1)" % mem, "%s+1" % mem) and "zero" in st:
+                        return st | {"all"}
+                    return st
+                kind, _L = index_kind(e)
+                if kind == "zero":
+                    return st | {"zero"}
+            ap = ts.assign_parts(f, i)
+            if ap and ap[1] is not None and f.k(f.strip(ap[0])) == "MemberExpr" and f.nodes[f.strip(ap[0])].get("member") == mem and rooted(f.strip(ap[0])):
+                return frozenset()       # the array itself is (re)allocated
+            return st
+
+        def edge(st, b, k, s, cond):
+            if cond is not None and cond >= 0 and f.strip(cond) in loop_writes and k == 1:
+                return st | {"zero", "all"}
+            return st
+        IN, OUT = core.dataflow(f, frozenset(), transfer, lambda a, b: a & b, edge)
+        bad = []
+        nreads = 0
+        for b, blk in f.blocks.items():
+            if b not in IN:
+                continue
+            st = IN[b]
+            for j, el in enumerate(blk["elems"]):
+                if el.get("kind") == "stmt":
+                    i = el["n"]
+                    e = elem_index(i) if f.k(i) == "ArraySubscriptExpr" else None
+                    if e is not None and i not in write_sub:
+                        nreads += 1
+                        kind, _L = index_kind(e)
+                        need = "zero" if kind == "zero" else "all"
+                        if need not in st:
+                            bad.append((i, need))
+                st = transfer(st, el, b, j)
+        bad.sort(key=lambda t: f.seq(t[0]))
+        if not writes or nreads == 0:
+            raise core.AnalysisBroken("FS-10: no writes (%d) or reads (%d) of %s found in read_fits_core" % (len(writes), nreads, mem))
+        n_obl += 1
+        C.ob("FS-10", "read_fits_core", "defined-before-read:%s" % mem, not bad, f.loc(bad[0][0]) if bad else f.where(),
+             "%d write site(s), %d read(s) of %s[..], each reached only with the entry defined" % (len(writes), nreads, mem) if not bad else
+             "%s at %s is read on a path where %s written: the storage from allocate<>() is uninitialised" %
+             (f.render(bad[0][0]).replace("this->", ""), f.loc(bad[0][0]), "entry 0 has not been" if bad[0][1] == "zero" else "not every entry has been"))
+        C.ob("FS-10", "read_fits_core", "write-sites:%s" % mem, len(writes) >= 2, f.where(), "%d statements define entries of %s" % (len(writes), mem))
+    return n_obl
